@@ -115,7 +115,7 @@ impl Property for C11 {
     fn run(&self, ctl: &mut Ctl) {
         let tier = ctl.tier;
         let ms = models(tier);
-        let brs = [BrancherSpec::Indep(0, 0), BrancherSpec::Default];
+        let brs = [BrancherSpec::Indep(0, 0), BrancherSpec::Default, BrancherSpec::DynamicSplit(0, 0)];
         let mut idx = 0u64;
         for model in &ms {
             let mut sols: Option<Vec<Vec<i32>>> = None;
